@@ -4,6 +4,7 @@ import (
 	"encoding/json"
 	"fmt"
 	"os"
+	"runtime"
 	"time"
 
 	"github.com/contiv/libOpenflow/cmd/hlib"
@@ -30,6 +31,9 @@ type minimizer struct {
 // its own seeded strategy; on success it returns the full decision trace of that run.
 func (m *minimizer) reproduces(sc *Scenario, dec []simrt.Decision) ([]simrt.Decision, bool) {
 	m.tries++
+	if heapBig() {
+		runtime.GC() // the collector is off during runs; candidates of a long scenario leave gigabytes behind
+	}
 	for attempt := 0; attempt < 2; attempt++ {
 		var o *outcome
 		c := cloneScenario(sc)
